@@ -5,6 +5,7 @@ pub mod common;
 pub mod c01;
 pub mod c02;
 pub mod c05;
+pub mod c06;
 pub mod c07;
 pub mod c08;
 pub mod c10;
@@ -25,6 +26,7 @@ pub fn dispatch(prop: &str, cfg: &RunCfg, out: &Out) {
         "C03" => idx::run(idx::Kind::C03, cfg, out),
         "C04" => idx::run(idx::Kind::C04, cfg, out),
         "C05" => c05::run(cfg, out),
+        "C06" => c06::run(cfg, out),
         "C07" => c07::run(cfg, out),
         "C08" => c08::run(cfg, out),
         "C09" => idx::run(idx::Kind::C09, cfg, out),
